@@ -272,11 +272,29 @@ def run(ch: Checker) -> None:
             okf = kw.get('default') == 'DEFAULT_TIMEOUT' and kw.get('type') == 'int'
     ch.check(okf, 'C20.5', None, '--timeout', '--timeout: int, default DEFAULT_TIMEOUT', '--timeout flag is no longer declared as int with default DEFAULT_TIMEOUT', module_rel=ts.relpath)
     fi = prog.method('FlagParser', 'initialize')
-    tsites = [st for st in walk_no_nested(fi.node) if isinstance(st, ast.Assign) and len(st.targets) == 1 and attr_chain(st.targets[0]) == 'args.timeout']
+    # the store into <namespace>.timeout; named temporaries with a single definition are read through (locals may have any name)
+    tsites = [st for st in walk_no_nested(fi.node) if isinstance(st, ast.Assign) and len(st.targets) == 1 and isinstance(st.targets[0], ast.Attribute) and st.targets[0].attr == 'timeout'
+              and isinstance(st.targets[0].value, ast.Name)]
+    tdefs: Dict[str, List[ast.AST]] = {}
+    for st in walk_no_nested(fi.node):
+        if isinstance(st, ast.Assign) and len(st.targets) == 1 and isinstance(st.targets[0], ast.Name):
+            tdefs.setdefault(st.targets[0].id, []).append(st.value)
+        elif isinstance(st, ast.AnnAssign) and isinstance(st.target, ast.Name) and st.value is not None:
+            tdefs.setdefault(st.target.id, []).append(st.value)
     bad5 = None
     for st in tsites:
-        narrowing = [attr_chain(c.func) for c in ast.walk(st.value) if isinstance(c, ast.Call) and (attr_chain(c.func) or '') in ('int', 'round', 'math.floor', 'math.ceil', 'math.trunc', 'floor', 'ceil', 'trunc', 'abs', 'max', 'min')]
-        reads = any(isinstance(c, ast.Call) and attr_chain(c.func) == 'opts.get' and c.args and isinstance(c.args[0], ast.Constant) and c.args[0].value == 'timeout' for c in ast.walk(st.value))
+        exprs: List[ast.AST] = [st.value]
+        seen_ids = set()
+        k_ = 0
+        while k_ < len(exprs):
+            for x in ast.walk(exprs[k_]):
+                if isinstance(x, ast.Name) and isinstance(x.ctx, ast.Load) and len(tdefs.get(x.id, [])) == 1 and x.id not in seen_ids:
+                    seen_ids.add(x.id)
+                    exprs.append(tdefs[x.id][0])
+            k_ += 1
+        narrowing = [attr_chain(c.func) for e_ in exprs for c in ast.walk(e_) if isinstance(c, ast.Call) and (attr_chain(c.func) or '') in ('int', 'round', 'math.floor', 'math.ceil', 'math.trunc', 'floor', 'ceil', 'trunc', 'abs', 'max', 'min')]
+        reads = any(isinstance(c, ast.Call) and isinstance(c.func, ast.Attribute) and c.func.attr == 'get' and c.args and isinstance(c.args[0], ast.Constant) and c.args[0].value == 'timeout'
+                    for e_ in exprs for c in ast.walk(e_))
         if narrowing or not reads:
             bad5 = 'args.timeout = %s: the configured timeout is %s' % (norm(st.value)[:70], 'passed through %s, which changes fractional values (2.5 -> 2: a connection that had traffic 2.2 s ago is reaped)' % narrowing if narrowing else 'not taken from the `timeout` option')
     ch.check(bad5 is None and len(tsites) == 1, 'C20.5', fi, 'args.timeout', 'the configured timeout reaches flags.timeout unchanged', bad5 or 'args.timeout is not assigned exactly once in FlagParser.initialize')
